@@ -710,9 +710,11 @@ do_configure(Ctx& x, const StreamCfg cfg_in[2])
         vmock::check_released("failed configure");
         return;
     }
-    if (vmock::hub.opens_refused > refused_before && !x.running && acquire_get_state(x.rt) != DeviceState_Armed) {
-        // a stream that cannot be configured leaves the runtime awaiting configuration; the call itself
-        // reports Ok (acquire.c) and the client sees it in the state
+    if (vmock::hub.opens_refused > refused_before && !x.running) {
+        // A stream that cannot be configured is left out: the call itself reports Ok (acquire.c); when it was
+        // the only stream the runtime awaits configuration, when the other stream is fine the runtime is Armed
+        // with that one alone.  Either way this client configures again before it starts anything (the model
+        // has no notion of "requested but not valid": judging the left-out stream as if it ran was a false alarm).
         x.c.trace("    -> configure left the runtime in state %s", device_state_as_string(acquire_get_state(x.rt)));
         x.configured = false;
         vmock::check_released("configure with a refused open");
@@ -1928,6 +1930,13 @@ vh_run(const VhTok* tape, size_t n, VhReport* rep)
                 // one-shot faults: a fault applies to the next start only
                 x.ops.push_back(op);
                 note_sizes(c2);
+                // the 16 MiB frames stay with this acquisition: later tokens start from a small image again (they may
+                // switch to the shipped simulated cameras, which would render 16 megapixels of sine per frame)
+                for (StreamCfg& c3 : cur)
+                    if (c3.w > 4096) {
+                        c3.w = 1 + c3.w % 9;
+                        c3.h = 1 + c3.h % 7;
+                    }
                 cur[0].fault_site = cur[1].fault_site = 0;
                 cur[0].open_fault = cur[1].open_fault = 0;
                 break;
